@@ -23,6 +23,7 @@
 #include <fcppt/optional/object.hpp>
 #include <fcppt/tuple/make.hpp>
 
+#include <array>
 #include <cstdint>
 #include <limits>
 #include <tuple>
@@ -344,6 +345,39 @@ void pow2_one(i64 e)
       fail("bit::test|value", "test(" + str(static_cast<i128>(v)) + ", bit " + str(ex) + ") wrong");
   }
 }
+// test() against ARBITRARY masks (not only the single-bit ones shifted_mask can build): "some bit of
+// the mask is set in the value", also for signed types and masks that contain the sign bit
+template <typename R>
+void mask_test_one(i64 vi, i64 mi)
+{
+  static auto const lat = lattice<R>(); // built once per type
+  R const v = lat[static_cast<std::size_t>(static_cast<u64>(vi) % lat.size())], m = lat[static_cast<std::size_t>(static_cast<u64>(mi) % lat.size())];
+  using U = std::make_unsigned_t<R>;
+  count(std::is_signed_v<R> && (m < 0));
+  bool const expect = (static_cast<U>(v) & static_cast<U>(m)) != 0;
+  if (fcppt::bit::test(v, fcppt::bit::mask<R>{m}) != expect)
+    fail(std::string("bit::test|arbitrary-mask|") + (std::is_signed_v<R> ? "signed" : "unsigned"), "test(" + str(static_cast<i128>(v)) + ", mask " + str(static_cast<i128>(m)) + ") wrong");
+}
+using mt_fn = void (*)(i64, i64);
+mt_fn const mt_table[] = {&mask_test_one<type_at<0>>, &mask_test_one<type_at<1>>, &mask_test_one<type_at<2>>, &mask_test_one<type_at<3>>,
+                          &mask_test_one<type_at<4>>, &mask_test_one<type_at<5>>, &mask_test_one<type_at<6>>, &mask_test_one<type_at<7>>};
+template <std::size_t... I>
+std::array<std::size_t, 8> lattice_sizes(std::index_sequence<I...>) { return {{lattice<type_at<I>>().size()...}}; }
+Reg const r_mask_test{
+    "bit_test_arbitrary_masks", Kind::exhaustive, "a signed type and a mask that contains the sign bit",
+    [] {
+      auto const sizes = lattice_sizes(std::make_index_sequence<8>{});
+      for (i64 t = 0; t < 8; ++t)
+        for (std::size_t a = 0; a < sizes[static_cast<std::size_t>(t)]; ++a)
+          for (std::size_t b = 0; b < sizes[static_cast<std::size_t>(t)]; ++b)
+          {
+            cur3(t, static_cast<i64>(a), static_cast<i64>(b));
+            mt_table[static_cast<std::size_t>(t)](static_cast<i64>(a), static_cast<i64>(b));
+          }
+    },
+    [](Ints const &c) { mt_table[static_cast<std::size_t>(c.at(0)) % 8](c.at(1), c.at(2)); },
+    [](Ints const &c) { return std::string("bit::test<") + type_names[static_cast<std::size_t>(c.at(0)) % 8] + "> with lattice value #" + std::to_string(c.at(1)) + " and lattice mask #" + std::to_string(c.at(2)); }};
+
 using p2_fn = void (*)(i64);
 p2_fn const p2_table[] = {&pow2_one<type_at<0>>, &pow2_one<type_at<1>>, &pow2_one<type_at<2>>, &pow2_one<type_at<3>>,
                           &pow2_one<type_at<4>>, &pow2_one<type_at<5>>, &pow2_one<type_at<6>>, &pow2_one<type_at<7>>};
